@@ -90,4 +90,60 @@ PROPS = {
         "assumptions": COMMON_ASSUME,
         "explanation": "theorems: compositional calculus FaithfulIO (a fault that fires during m comes out as the injected error: not ok, not a panic, not a swallowed kind) for every VfsPath operation over arbitrary faithful filesystems, altroot, overlay (any layers, any nesting), walk items; the pre-fix OverlayFS::exists is refuted. tie: fault-injecting wrapper on the real code for every call position",
     },
+    "C03": {
+        "module": "VfsModel.Props.C03",
+        "namespace": "Vfs.C03",
+        "required_theorems": ["init_wf", "prim_wf", "history_wf", "listed_by_parent", "reachable", "write_on_dir_refused", "unchecked_remove_file_breaks_wf"],
+        "streams": [("tree", ["--prop", "C03"])],
+        "rule": "tree stream: seeded histories of 30 (quick) / 60 (thorough) path-API calls on 13 configurations (mem, phys, altroot over each at depth 0-3, altroot of altroot, overlays with 1-3 layers over memory and physical layers with independently pre-populated, type-consistent layers, altroot over overlay, overlay over altroots, overlay over overlay); operations generated from the implementation's current state (valid, failing, missing-parent calls; names a, ab, a.b, é, nested); after EVERY call a full observable snapshot (exists, metadata, read_dir, open+read of each of 9 universe paths) and walk_dir of the root; each run is mirrored by the Lean model and by a model-only reference tree holding the abstract content; a case is distinct by (config, op, result class, snapshot)" + "; for C03: calls of the WRONG type for their target are generated on purpose; predicate per step: root is a directory, exists(p) implies parent(p) is a directory, walk_dir(root) reaches every existing path",
+        "modelled_not_verified": ["PhysicalFS keeps a tree because the host file system does (assumption); altroot and overlay store nothing themselves: their view is compared on every step by the stream, the leaves they write to are covered by the theorem",
+                                  "composite operations are sequences of the primitives covered by prim_wf, except create_dir_all which calls the backend's create_dir directly (covered by the stream)"],
+        "assumptions": COMMON_ASSUME + ["write sessions are atomic (no call touches a path while a write handle to it is open: excluded by the property)", "removal of the root itself is set aside by the property"],
+        "explanation": "theorems: WF (root is a directory, every other key has a directory parent) is preserved by every path-layer primitive over the in-memory leaf for EVERY path string and with no type restriction, hence by every finite history from the initial state; every entry of a WF map is listed by its parent and reachable from the root; the pre-fix remove_file is refuted",
+    },
+    "C05": {
+        "module": "VfsModel.Props.C05",
+        "namespace": "Vfs.C05",
+        "required_theorems": ["readDir_is_children", "listing_nodup", "exists_iff_listed_once", "isDir_iff_listable", "isFile_iff_readable",
+                              "listed_names_bare", "metadata_iff_exists", "absent_all_fail", "merge_nodup", "merge_mem"],
+        "streams": [("tree", ["--prop", "C05"])],
+        "rule": "tree stream: seeded histories of 30 (quick) / 60 (thorough) path-API calls on 13 configurations (mem, phys, altroot over each at depth 0-3, altroot of altroot, overlays with 1-3 layers over memory and physical layers with independently pre-populated, type-consistent layers, altroot over overlay, overlay over altroots, overlay over overlay); operations generated from the implementation's current state (valid, failing, missing-parent calls; names a, ab, a.b, é, nested); after EVERY call a full observable snapshot (exists, metadata, read_dir, open+read of each of 9 universe paths) and walk_dir of the root; each run is mirrored by the Lean model and by a model-only reference tree holding the abstract content; a case is distinct by (config, op, result class, snapshot)" + "; for C05: predicate per step and universe path: exists iff the parent lists the name exactly once, directory iff listable, file iff readable with metadata length = bytes read, names bare, absent paths fail every observer; walk_dir yields each descendant once and every directory before its contents",
+        "modelled_not_verified": ["walk_dir's order/completeness is decided by the stream's predicate on the real iterator; no Lean theorem about WalkDirIterator is claimed here (partial)"],
+        "assumptions": COMMON_ASSUME,
+        "explanation": "theorems on the in-memory map: the string-prefix scan of read_dir lists exactly the bare names n with p/n a key (siblings a/ab/a.b cannot leak), no name twice, exists iff listed once, directory iff listable, file iff readable, metadata iff exists, absent paths fail all observers with not-found; the overlay's merge is duplicate-free and exact",
+    },
+    "C12": {
+        "module": "VfsModel.Props.C12",
+        "namespace": "Vfs.C12",
+        "required_theorems": ["metadata_err", "createDir_err", "createDirAll_err", "copyFile_err", "moveDir_err", "removeDirAll_err", "readDir_err",
+                              "join_trailing_slash_invalid", "mem_missing", "phys_missing", "mem_createDir_occupied", "mem_defaults"],
+        "streams": [("tree", ["--prop", "C12"])],
+        "rule": "tree stream: seeded histories of 30 (quick) / 60 (thorough) path-API calls on 13 configurations (mem, phys, altroot over each at depth 0-3, altroot of altroot, overlays with 1-3 layers over memory and physical layers with independently pre-populated, type-consistent layers, altroot over overlay, overlay over altroots, overlay over overlay); operations generated from the implementation's current state (valid, failing, missing-parent calls; names a, ab, a.b, é, nested); after EVERY call a full observable snapshot (exists, metadata, read_dir, open+read of each of 9 universe paths) and walk_dir of the root; each run is mirrored by the Lean model and by a model-only reference tree holding the abstract content; a case is distinct by (config, op, result class, snapshot)" + "; for C12: every failing call (wrong-type calls, composite and time-setting operations included): VfsError::path() must be the caller's path, its destination, an ancestor or a descendant in the caller's namespace and never the placeholder; class rules against the reference tree; error class AND path compared with the model",
+        "modelled_not_verified": ["Display text of errors is not modelled; the placeholder is detected through path()"],
+        "assumptions": COMMON_ASSUME + ["VfsPath::exists does not relabel: the label theorems for create_dir/create_file/is_file/is_dir assume the backend's exists never fails (true of all fault-free leaves, proved for leafFS/embedded/altroot)"],
+        "explanation": "theorems: for an ARBITRARY backend (whatever label it puts on its errors) every error of a single-path VfsPath operation carries exactly the caller's path, of create_dir_all a prefix of it, of remove_dir_all the path or a descendant, of copy/move operations the source path; trailing-slash join is InvalidPath; defaults are NotSupported; missing entries are FileNotFound on both leaf models; occupied create_dir reports the occupant",
+    },
+    "C18": {
+        "module": "VfsModel.Props.C18",
+        "namespace": "Vfs.C18",
+        "required_theorems": ["embedded_readonly", "observers_pure", "observers_no_panic", "has_new", "children_sound", "children_complete",
+                              "file_visible", "dir_visible", "root_exists", "root_is_dir", "absent"],
+        "streams": [("embed", [])],
+        "rule": "embed stream (exhaustive over its path set): fixture folder with nested, dotted, multi-byte and prefix-sharing names; path set = every embedded file, every implied directory, the root, and for each of them a sibling, a prefix, an extension of the name and two deeper paths (also below files); all observers + walk_dir from every directory compared with PhysicalFS on the same folder and with the Lean model; 13 mutators on every path",
+        "modelled_not_verified": ["rust-embed (RustEmbed::iter / get) provides the file list and bytes; timestamps of embedded files are not compared"],
+        "assumptions": COMMON_ASSUME,
+        "explanation": "theorems for EVERY file list: the directory map built by EmbeddedFS::new contains exactly the directory prefixes of the file paths and lists exactly their next components, without duplicates; files visible with their bytes and length; directories length 0, not openable; root exists and behaves like any directory; absent paths fail all observers; every mutator is NotSupported and changes nothing",
+    },
+    "C19": {
+        "module": "VfsModel.Props.C19",
+        "namespace": "Vfs.C19",
+        "required_theorems": ["set_roundtrip_created", "set_roundtrip_modified", "set_roundtrip_accessed", "set_absent", "setters_commute_on_distinct_fields",
+                              "publish_keeps_created_accessed", "append_session_keeps_created", "create_file_resets", "phys_setCreationTime_notSupported",
+                              "world_setModificationTime", "overlay_setters", "altroot_setters", "embedded_setters"],
+        "streams": [("tree", ["--prop", "C19"])],
+        "rule": "tree stream with time operations on 9 configurations (memory, physical, altroot and overlay over them, stackings): histories of 30/60 calls mixing set_creation/modification/access_time (values 0, 1, 86400, 999999999, 1e9, 1234567890 s), writes, appends, removals; metadata with all three timestamps is read immediately before and after every setter (before any content read); on in-memory backed configurations the timestamps are also compared with the model",
+        "modelled_not_verified": ["the host file system stamps physical timestamps itself: physical metadata is compared by the property predicate only (set value reported, other fields unchanged)", "sub-second values are not generated by this stream (whole seconds within the range the host round-trips)"],
+        "assumptions": COMMON_ASSUME,
+        "explanation": "theorems on the in-memory model: each setter round-trips its field exactly and leaves the other two, type, length, bytes and all other entries alone; absent path is not-found without change; setters on distinct fields commute; flush/append keep creation and access time; create_file resets; physical creation time is NotSupported without change; overlay setters act on write_path, altroot setters on the translated path, embedded is NotSupported",
+    },
 }
